@@ -21,10 +21,10 @@ theorem stop_ppMem (mem : Option String) (r : List STok) (h : StopOK r) :
   | none => simpa [ppMemT] using h
   | some m => simp [ppMemT, StopOK]
 
-theorem wf_var (x : String) (idx : List PExpr) : wf (.var x idx) = wfL idx := by simp [wf]
+theorem wf_var (x : String) (idx : List XExpr) : wfX (.var x idx) = wfXL idx := by simp [wfX]
 
-theorem norm_var (x : String) (idx : List PExpr) : norm (.var x idx) = .var x (normL idx) := by
-  simp [norm]
+theorem norm_var (x : String) (idx : List XExpr) : normX (.var x idx) = .var x (normXL idx) := by
+  simp [normX]
 
 theorem parseSimple_lv_assign (x : String) (r : List STok) :
     parseSimple (.t (.id x) :: .assign :: r) = parseLv (.t (.id x) :: .assign :: r) := by
@@ -39,43 +39,43 @@ theorem parseSimple_lv_lb (x : String) (r : List STok) :
   simp [parseSimple]
 
 /-- an lvalue followed by `=`/`+=` goes to `parseLv` -/
-theorem parseSimple_lv (x : String) (idx : List PExpr) (r : List STok)
+theorem parseSimple_lv (x : String) (idx : List XExpr) (r : List STok)
     (hr : ∃ r', r = .assign :: r' ∨ r = .pluseq :: r') :
-    parseSimple (tt (ppT 0 (.var x idx)) ++ r) = parseLv (tt (ppT 0 (.var x idx)) ++ r) := by
+    parseSimple ((ppX 0 (.var x idx)) ++ r) = parseLv ((ppX 0 (.var x idx)) ++ r) := by
   cases idx with
   | nil =>
     obtain ⟨r', rfl | rfl⟩ := hr
-    · simpa [ppT] using parseSimple_lv_assign x r'
-    · simpa [ppT] using parseSimple_lv_pluseq x r'
+    · simpa [ppX] using parseSimple_lv_assign x r'
+    · simpa [ppX] using parseSimple_lv_pluseq x r'
   | cons i is =>
-    simp only [ppT, tt_cons, List.cons_append]
+    simp only [ppX, List.cons_append]
     exact parseSimple_lv_lb x _
 
-theorem parseSimple_assign (x : String) (idx : List PExpr) (rhs : PExpr)
-    (h1 : wfL idx = true) (h2 : wf rhs = true) :
-    parseSimple (simpleT (.assign x idx rhs)) = some (.assign x (normL idx) (norm rhs)) := by
+theorem parseSimple_assign (x : String) (idx : List XExpr) (rhs : XExpr)
+    (h1 : wfXL idx = true) (h2 : wfX rhs = true) :
+    parseSimple (simpleT (.assign x idx rhs)) = some (.assign x (normXL idx) (normX rhs)) := by
   simp only [simpleT]
   rw [parseSimple_lv x idx _ ⟨_, .inl rfl⟩]
-  have hl := parseES_rt (.var x idx) (by rw [wf_var]; exact h1) (.assign :: tt (ppT 0 rhs))
+  have hl := parseES_rt (.var x idx) (by rw [wf_var]; exact h1) (.assign :: (ppX 0 rhs))
     (stop_assign _)
   simp only [parseLv, hl, norm_var, parseES_full rhs h2]
 
-theorem parseSimple_reduce (x : String) (idx : List PExpr) (rhs : PExpr)
-    (h1 : wfL idx = true) (h2 : wf rhs = true) :
-    parseSimple (simpleT (.reduce x idx rhs)) = some (.reduce x (normL idx) (norm rhs)) := by
+theorem parseSimple_reduce (x : String) (idx : List XExpr) (rhs : XExpr)
+    (h1 : wfXL idx = true) (h2 : wfX rhs = true) :
+    parseSimple (simpleT (.reduce x idx rhs)) = some (.reduce x (normXL idx) (normX rhs)) := by
   simp only [simpleT]
   rw [parseSimple_lv x idx _ ⟨_, .inr rfl⟩]
-  have hl := parseES_rt (.var x idx) (by rw [wf_var]; exact h1) (.pluseq :: tt (ppT 0 rhs))
+  have hl := parseES_rt (.var x idx) (by rw [wf_var]; exact h1) (.pluseq :: (ppX 0 rhs))
     (stop_pluseq _)
   simp only [parseLv, hl, norm_var, parseFull_rt rhs h2]
 
-theorem parseSimple_writeCfg (c f : String) (rhs : PExpr) (h : wf rhs = true) :
-    parseSimple (simpleT (.writeCfg c f rhs)) = some (.writeCfg c f (norm rhs)) := by
+theorem parseSimple_writeCfg (c f : String) (rhs : XExpr) (h : wfX rhs = true) :
+    parseSimple (simpleT (.writeCfg c f rhs)) = some (.writeCfg c f (normX rhs)) := by
   simp [simpleT, parseSimple, parseFull_rt rhs h]
 
-theorem parseSimple_alloc (x : String) (ty : Ty) (shape : List PExpr) (mem : Option String)
-    (h : wfL shape = true) :
-    parseSimple (simpleT (.alloc x ty shape mem)) = some (.alloc x ty (normL shape) mem) := by
+theorem parseSimple_alloc (x : String) (ty : Ty) (shape : List XExpr) (mem : Option String)
+    (h : wfXL shape = true) :
+    parseSimple (simpleT (.alloc x ty shape mem)) = some (.alloc x ty (normXL shape) mem) := by
   have hl := parseES_rt (.var ty.name shape) (by rw [wf_var]; exact h) (ppMemT mem)
     (by simpa using stop_ppMem mem [] trivial)
   simp only [simpleT, parseSimple, parseAlloc, hl, norm_var, ofName_name, parseMem_ppMem]
@@ -84,8 +84,8 @@ theorem parseSimple_window (v x : String) (accs : List WAcc) (h : wfWin accs = t
     parseSimple (simpleT (.window v x accs)) = some (.window v x (normAccs accs)) := by
   simp only [simpleT]
   rw [parseSimple_lv_assign]
-  have hl := parseES_rt (.var v []) (by simp [wf, wfL]) (.assign :: ppWinT x accs) (stop_assign _)
-  simp only [ppT, tt_cons, tt_nil, List.cons_append, List.nil_append, norm_var, normL] at hl
+  have hl := parseES_rt (.var v []) (by simp [wfX, wfXL]) (.assign :: ppWinT x accs) (stop_assign _)
+  simp only [ppX, List.cons_append, List.nil_append, norm_var, normXL] at hl
   have hn := parseES_win_none x accs h []
   have hw := parseWin_rt x accs h []
   simp only [List.append_nil] at hn hw
@@ -127,33 +127,33 @@ theorem parseSimple_rt (s : PStmt) (hs : isSimple s = true) (h : wfStmt s = true
 
 /-! ### first tokens -/
 
-/-- the first token of a printed expression is an expression token -/
-theorem tt_ppT_head (p : Nat) (e : PExpr) : ∃ a r, tt (ppT p e) = .t a :: r := by
-  have := ppT_length_pos p e
-  cases h : ppT p e with
-  | nil => simp [h] at this
-  | cons a r => exact ⟨a, tt r, rfl⟩
+/-- the first token of a printed variable (with or without subscripts) is its name -/
+theorem ppX_var_head (x : String) (idx : List XExpr) :
+    ∃ r, ppX 0 (.var x idx) = .t (.id x) :: r := by
+  cases idx with
+  | nil => exact ⟨[], by simp [ppX]⟩
+  | cons i is => exact ⟨.t .lb :: (ppX 0 i ++ (ppTailX is ++ [.t .rb])), by simp only [ppX]⟩
 
 /-- the first token of the first line of a statement -/
-theorem simpleT_head (s : PStmt) : ∃ a r, simpleT s = a :: r ∧ a ≠ .kwElse ∧
+theorem simpleT_head (s : PStmt) : ∃ a r, simpleT s = a :: r ∧ a ≠ .kwElse ∧ a ≠ .kwAssert ∧
     (isSimple s = true → a ≠ .kwFor ∧ a ≠ .kwIf) := by
   cases s with
-  | pass => exact ⟨_, _, rfl, by simp, by simp⟩
+  | pass => exact ⟨_, _, rfl, by simp, by simp, by simp⟩
   | assign x idx rhs =>
-    obtain ⟨a, r, h⟩ := tt_ppT_head 0 (.var x idx)
-    exact ⟨.t a, r ++ (.assign :: tt (ppT 0 rhs)), by simp [simpleT, h], by simp, by simp⟩
+    obtain ⟨r, h⟩ := ppX_var_head x idx
+    exact ⟨.t (.id x), r ++ (.assign :: ppX 0 rhs), by simp [simpleT, h], by simp, by simp, by simp⟩
   | reduce x idx rhs =>
-    obtain ⟨a, r, h⟩ := tt_ppT_head 0 (.var x idx)
-    exact ⟨.t a, r ++ (.pluseq :: tt (ppT 0 rhs)), by simp [simpleT, h], by simp, by simp⟩
-  | writeCfg c f rhs => exact ⟨_, _, rfl, by simp, by simp⟩
-  | alloc x ty shape mem => exact ⟨_, _, rfl, by simp, by simp⟩
-  | window v x accs => exact ⟨_, _, rfl, by simp, by simp⟩
-  | call f args => exact ⟨_, _, rfl, by simp, by simp⟩
-  | loop par i lo hi body => exact ⟨_, _, rfl, by simp, by simp [isSimple]⟩
-  | ite c body orelse => exact ⟨_, _, rfl, by simp, by simp [isSimple]⟩
+    obtain ⟨r, h⟩ := ppX_var_head x idx
+    exact ⟨.t (.id x), r ++ (.pluseq :: ppX 0 rhs), by simp [simpleT, h], by simp, by simp, by simp⟩
+  | writeCfg c f rhs => exact ⟨_, _, rfl, by simp, by simp, by simp⟩
+  | alloc x ty shape mem => exact ⟨_, _, rfl, by simp, by simp, by simp⟩
+  | window v x accs => exact ⟨_, _, rfl, by simp, by simp, by simp⟩
+  | call f args => exact ⟨_, _, rfl, by simp, by simp, by simp⟩
+  | loop par i lo hi body => exact ⟨_, _, rfl, by simp, by simp, by simp [isSimple]⟩
+  | ite c body orelse => exact ⟨_, _, rfl, by simp, by simp, by simp [isSimple]⟩
 
 theorem simpleT_ne_else (s : PStmt) : simpleT s ≠ elseT := by
-  obtain ⟨a, r, h, hne, _⟩ := simpleT_head s
+  obtain ⟨a, r, h, hne, _, _⟩ := simpleT_head s
   rw [h, elseT]
   intro hh
   simp only [List.cons.injEq] at hh
@@ -164,14 +164,14 @@ theorem simpleT_ne_else (s : PStmt) : simpleT s ≠ elseT := by
 theorem loopMode_kw (par : Bool) : loopMode (loopKw par) = some par := by
   cases par <;> decide
 
-theorem parseForHead_rt (par : Bool) (i : String) (lo hi : PExpr) (h1 : wf lo = true)
-    (h2 : wf hi = true) :
-    parseForHead (forHeadT par i lo hi) = some (par, i, norm lo, norm hi) := by
-  have e1 := parseES_rt lo h1 (.t .comma :: (tt (ppT 0 hi) ++ [.t .rp, .colon])) (stop_comma _)
+theorem parseForHead_rt (par : Bool) (i : String) (lo hi : XExpr) (h1 : wfX lo = true)
+    (h2 : wfX hi = true) :
+    parseForHead (forHeadT par i lo hi) = some (par, i, normX lo, normX hi) := by
+  have e1 := parseES_rt lo h1 (.t .comma :: ((ppX 0 hi) ++ [.t .rp, .colon])) (stop_comma _)
   have e2 := parseES_rt hi h2 [.t .rp, .colon] (stop_rp _)
   simp only [forHeadT, parseForHead, loopMode_kw, e1, e2]
 
-theorem parseIfHead_rt (c : PExpr) (h : wf c = true) : parseIfHead (ifHeadT c) = some (norm c) := by
+theorem parseIfHead_rt (c : XExpr) (h : wfX c = true) : parseIfHead (ifHeadT c) = some (normX c) := by
   have e1 := parseES_rt c h [.colon] (stop_colon _)
   simp only [ifHeadT, parseIfHead, e1]
 
@@ -291,7 +291,7 @@ theorem stmtRT_simple (w : Nat) (s : PStmt) (hs : isSimple s = true) (h : wfStmt
   intro col f ls hf _
   have hp := needS_pos s
   obtain ⟨F, rfl⟩ : ∃ F, f = F + 1 := ⟨f - 1, by omega⟩
-  obtain ⟨a, r, hh, _, hk⟩ := simpleT_head s
+  obtain ⟨a, r, hh, _, _, hk⟩ := simpleT_head s
   have hk := hk hs
   have htl : tailLines w col s = [] := tailLines_simple w col s hs
   rw [parseStmt_simple F col ⟨col, simpleT s⟩ _
@@ -322,8 +322,8 @@ theorem restOK_of_after {col w : Nat} (hw : 0 < w) {ls : List Line} (h : AfterOK
   | nil => trivial
   | cons l ls => simp only [AfterOK] at h; simp only [RestOK]; omega
 
-theorem loop_step (w : Nat) (hw : 0 < w) (par : Bool) (i : String) (lo hi : PExpr)
-    (body : List PStmt) (h1 : wf lo = true) (h2 : wf hi = true) (hne : body ≠ [])
+theorem loop_step (w : Nat) (hw : 0 < w) (par : Bool) (i : String) (lo hi : XExpr)
+    (body : List PStmt) (h1 : wfX lo = true) (h2 : wfX hi = true) (hne : body ≠ [])
     (Hb : BlockRT w body) : StmtRT w (.loop par i lo hi body) := by
   intro col f ls hf ha
   simp only [needS] at hf
@@ -335,8 +335,8 @@ theorem loop_step (w : Nat) (hw : 0 < w) (par : Bool) (i : String) (lo hi : PExp
   simp only [simpleT, parseForHead_rt par i lo hi h1 h2,
     body_rt w hw body hne Hb col F ls (by omega) (restOK_of_after hw ha), normStmt]
 
-theorem ite_step (w : Nat) (hw : 0 < w) (c : PExpr) (body orelse : List PStmt)
-    (h1 : wf c = true) (hne : body ≠ []) (Hb : BlockRT w body) (Ho : BlockRT w orelse) :
+theorem ite_step (w : Nat) (hw : 0 < w) (c : XExpr) (body orelse : List PStmt)
+    (h1 : wfX c = true) (hne : body ≠ []) (Hb : BlockRT w body) (Ho : BlockRT w orelse) :
     StmtRT w (.ite c body orelse) := by
   intro col f ls hf ha
   simp only [needS] at hf
